@@ -4,6 +4,7 @@
   (Start-up validation of tags / unknown keys is checked by the `loadcfg` correspondence runs.)
 -/
 import MosVerif.Lemmas.RouterBasic
+import MosVerif.Lemmas.RouterSpecMain
 import MosVerif.Model.RouterIO
 import MosVerif.Lemmas.LoadCfgLemmas
 namespace MosVerif.C10
@@ -104,6 +105,37 @@ theorem handle_forwards_lowercased (env : Env) (m : Msg) (q0 : Question) (k : Na
   simp at h
   obtain ⟨r, _, _, _, hp⟩ := forward_only_selected env _ k wire h
   exact hp
+
+/-- ★ A forward rule that decides a well-formed question sends exactly ONE query, to its own upstream
+    (`packReq` cannot fail: no silent "nothing forwarded" path) … -/
+theorem forward_rule_sends_once (env : Env) (q : Question) (r : Rule) (u : Nat) (hq : questionWF q = true)
+    (h : firstRule env q = some r) (hr : r.reject = 0) (hu : r.upstream = some u) :
+    ∃ wire, packReq env q = .ok wire ∧ (handleReq env q).2.2 = [(u, wire)] := by
+  obtain ⟨wire, hp, _⟩ := packReq_decodes env q hq
+  refine ⟨wire, hp, ?_⟩
+  rw [← routed_snd, routed_forward env q r u wire h (by omega) hu hp]
+
+/-- ★ … and the bytes every contacted upstream receives decode (by the real decoder model, C02) to RD = 1,
+    QR = 0, exactly the query's question with a lower-cased name and untouched type and class, no answer or
+    authority records and one OPT record: the executable specification's C10 clauses hold for the model. -/
+theorem forwarded_wire_decodes (env : Env) (m : Msg) (q0 : Question) (k : Nat) (wire : Bytes)
+    (hq : m.questions = [q0]) (hs : m.hdr.response = false ∧ m.hdr.rd = true ∧ m.hdr.opcode = 0)
+    (hwf : questionWF q0 = true) (h : (k, wire) ∈ (handle env m).forwards) :
+    ∃ fm, unpackMsg wire = .ok fm ∧ fm.hdr.rd = true ∧ fm.hdr.response = false ∧
+      fm.questions = [⟨lowerName q0.name, q0.qtype, q0.qclass⟩] ∧ fm.answers = [] ∧ fm.authorities = [] ∧
+      fm.additionals.length = 1 := by
+  have hp := handle_forwards_lowercased env m q0 k wire hq hs h
+  refine ⟨_, packReq_ok_decodes env _ (questionWF_lower q0 hwf) wire hp, ?_⟩
+  simp [reqMsg, emptyHdr]
+
+/-- ★ The routing judgement of the executable specification (first applicable rule decides; reject code;
+    REFUSED; one query to exactly the selected upstream, decodable, with the right question; SERVFAIL or relay)
+    accepts the model on every path — the C10 face of `C03.model_meets_spec`. -/
+theorem routing_meets_spec (env : Env) (m : Msg)
+    (hq : ∀ q ∈ m.questions, questionWF q = true) (hrej : ∀ ru ∈ env.rules, ru.reject < 16)
+    (hups : ∀ (u : Nat) (resp : Msg), env.ups[u]? = some (UpOutcome.reply resp) → countOpt resp.additionals ≤ 2) :
+    RouterIO.spec env m ⟨(handle env m).resp, (handle env m).forwards⟩ = "ok" :=
+  spec_model env m hq hrej hups
 
 /-- non-vacuity: a two-rule list where the first (reject) rule wins over a later forward rule -/
 example :
